@@ -523,6 +523,56 @@ func (w *treeWorld) readDuringRefilter() {
 	w.tr.stats["act:read-during-refilter"]++
 }
 
+// earlySub is a subscription of a home-made publisher: events are already waiting in it, it never becomes ready,
+// and then its publisher goes away. A monitor on it must not call anything.
+type earlySub struct {
+	ready, done chan struct{}
+	ev          chan kcache.Event
+	once        sync.Once
+}
+
+func (s *earlySub) Cache() kcache.CacheReader   { return nil }
+func (s *earlySub) Ready() <-chan struct{}      { return s.ready }
+func (s *earlySub) Events() <-chan kcache.Event { return s.ev }
+func (s *earlySub) Close()                      { s.once.Do(func() { close(s.done) }) }
+func (s *earlySub) Done() <-chan struct{}       { return s.done }
+func (s *earlySub) Error() error                { return nil }
+
+type earlyPub struct {
+	kcache.Publisher
+	sub *earlySub
+}
+
+func (p earlyPub) Subscribe() (kcache.Subscription, error) { return p.sub, nil }
+
+// monitorProbe: no callback at all when the publisher shuts down before it became ready — whatever is waiting in
+// the subscription by then
+func (w *treeWorld) monitorProbe() {
+	es := &earlySub{ready: make(chan struct{}), done: make(chan struct{}), ev: make(chan kcache.Event, 8)}
+	for i := 1 + w.r.Intn(4); i > 0; i-- {
+		es.ev <- kcache.NewEvent(kcache.EventTypeCreate, kv.Obj{Kind: "pod", NS: "a", Name: "x", RV: fmt.Sprint(i)}.Build())
+	}
+	var calls atomic.Int32
+	h := kcache.BuildHandler().
+		OnInitialize(func([]metav1.Object) { calls.Add(1) }).
+		OnCreate(func(metav1.Object) { calls.Add(1) }).
+		OnUpdate(func(metav1.Object) { calls.Add(1) }).
+		OnDelete(func(metav1.Object) { calls.Add(1) }).Create()
+	m, err := kcache.NewMonitor(earlyPub{sub: es}, h)
+	if err != nil {
+		return
+	}
+	if w.r.Chance(1, 2) {
+		w.wait()
+	}
+	es.Close()
+	w.wait()
+	w.tr.line(kv.L("monprobe", fmt.Sprint(calls.Load()), kv.Bool(isClosed(m.Done()))))
+	m.Close()
+	w.wait()
+	w.tr.stats["act:monitor-probe"]++
+}
+
 // flood: up to EventBufsiz/4 server events without waiting in between
 func (w *treeWorld) flood() {
 	for j := inflight(10 + w.r.Intn(15)); j > 0; j-- {
@@ -852,6 +902,10 @@ func runTreeScenario(t *testing.T, tr *tracer, idx int, seed uint64, mode string
 		}
 		modes := strings.Split(mode, ",")
 		mode = modes[r.Intn(len(modes))]
+		c15 := mode == "c15"
+		if c15 {
+			mode = "step" // step scenarios in which most Refilters are read through while they are applied
+		}
 		w := &treeWorld{tr: tr, r: r, srv: kv.NewServer(), perturb: r.Chance(2, 3), mode: mode}
 		w.longPause = w.perturb && (mode == "step" || mode == "burst") && r.Chance(1, 5)
 		w.maxNodes = 9
@@ -892,6 +946,9 @@ func runTreeScenario(t *testing.T, tr *tracer, idx int, seed uint64, mode string
 		w.wait()
 		w.observe()
 		kinds := []string{"sub", "subf", "subd", "clone", "clonef", "cloned", "mon"}
+		if r.Chance(1, 8) {
+			w.monitorProbe()
+		}
 		if gated {
 			for i := r.Intn(5); i > 0; i-- {
 				switch r.Intn(4) {
@@ -1043,7 +1100,7 @@ func runTreeScenario(t *testing.T, tr *tracer, idx int, seed uint64, mode string
 			switch x := r.Intn(100); {
 			case x < 3 && mode == "step":
 				w.step(w.lateMonitor)
-			case x < 8 && mode == "step":
+			case (x < 8 || (c15 && x < 45)) && mode == "step":
 				w.step(w.readDuringRefilter)
 			case x < 38:
 				w.step(w.srvEvent)
